@@ -155,7 +155,7 @@ def run_case(c):
             del log[:]
             for _ in range(3):
                 await asyncio.sleep(0)
-            per_op.append({"trace": sync, "after": list(log), "raised": raised})
+            per_op.append({"trace": sync, "after": list(log), "raised": raised, "state": snapshot(drv, kinds_of)})
         return {"status": "ok", "ops": per_op, "state": snapshot(drv, kinds_of), "name": drv.name}
 
     return asyncio.run(main())
